@@ -255,10 +255,23 @@ class Gen:
         incs = []
         dirs = idirs[:]
         rng.shuffle(dirs)
-        for d in dirs:
-            if rng.random() < 0.5:
-                flag = rng.choice(["-I", "-I", "-isystem"])
-                incs += [flag, d] if (flag == "-isystem" or rng.random() < 0.7) else [f"-I{d}"]
+        prev = getattr(self, "_last_dirs", None)
+        if prev and len(prev) >= 2 and rng.random() < 0.3:
+            # the directories of the previous command, searched in another order (what one command resolved must not be
+            # served to a command that searches the same directories differently)
+            chosen = prev[:]
+            rng.shuffle(chosen)
+            self.features.add("same-dirs-other-order")
+            for d in chosen:
+                incs += ["-I", d] if rng.random() < 0.7 else [f"-I{d}"]
+        else:
+            chosen = []
+            for d in dirs:
+                if rng.random() < 0.5:
+                    chosen.append(d)
+                    flag = rng.choice(["-I", "-I", "-isystem"])
+                    incs += [flag, d] if (flag == "-isystem" or rng.random() < 0.7) else [f"-I{d}"]
+        self._last_dirs = chosen
         forced = []
         if rng.random() < 0.2:
             forced = ["-include", os.path.relpath("cb/include/pre.h", os.path.dirname(s))]
